@@ -167,28 +167,30 @@ pub fn preserving_body(rng: &mut Rng, cur: Sh, len: usize, acts: &[Act], with_po
                 let max_choice = if with_pool && remaining >= 2 { 2 } else { 1 };
                 match rng.range(0, max_choice) {
                     0 => {
-                        let k = *rng.pick(&[1usize, 3]);
-                        let d = if k == 3 && h >= 3 && w >= 3 { rng.range(1, 2) } else { 1 };
-                        let p = d * (k - 1) / 2;
+                        // 'same' convolution; the two kernel extents are chosen independently
+                        // (1x3, 3x1 kernels as well as square ones)
+                        let (k0, k1) = (*rng.pick(&[1usize, 3]), *rng.pick(&[1usize, 3]));
+                        let d0 = if k0 == 3 && h >= 3 { rng.range(1, 2) } else { 1 };
+                        let d1 = if k1 == 3 && w >= 3 { rng.range(1, 2) } else { 1 };
                         body.push(LCfg::Conv {
                             filters: c,
-                            kernel: (k, k),
+                            kernel: (k0, k1),
                             stride: (1, 1),
-                            padding: (p, p),
-                            dilation: (d, d),
+                            padding: (d0 * (k0 - 1) / 2, d1 * (k1 - 1) / 2),
+                            dilation: (d0, d1),
                             act: *rng.pick(acts),
                             dropout: None,
                         });
                         remaining -= 1;
                     }
                     1 => {
-                        // deconvolution k=3,s=1,p=1 (or 1x1) keeps the extent
-                        let k = *rng.pick(&[1usize, 3]);
+                        // deconvolution k=3,s=1,p=1 (or 1) per axis keeps the extent
+                        let (k0, k1) = (*rng.pick(&[1usize, 3]), *rng.pick(&[1usize, 3]));
                         body.push(LCfg::Deconv {
                             filters: c,
-                            kernel: (k, k),
+                            kernel: (k0, k1),
                             stride: (1, 1),
-                            padding: ((k - 1) / 2, (k - 1) / 2),
+                            padding: ((k0 - 1) / 2, (k1 - 1) / 2),
                             act: *rng.pick(acts),
                             dropout: None,
                         });
